@@ -24,13 +24,24 @@ theorem nc18a_bare_cr_splits_record :
     parse .exetera ['s', ',', 'n', '\n', 'i', '\r', 'j', ',', '5', '\n'] = [[['s'], ['n']], [['i', '\r', 'j'], ['5']]] := by
   decide
 
-/-- NC18b: `to_pandas` refuses the row filters `to_csv` accepts — a Field, and a boolean filter shorter than the frame. -/
+/-- NC18b as found (repaired by fixes/NC18b): `to_pandas` refused the row filters `to_csv` accepts — a Field, and a boolean
+    filter shorter than the frame — and read an integer array as row numbers. The repaired variant returns the rows `to_csv`
+    writes. -/
 theorem nc18b_to_pandas_refuses_csv_filters :
-    toPandas [⟨['s'], [['a'], ['b'], ['c']]⟩] (.field [true, false, true]) .none
+    toPandas .asFound [⟨['s'], [['a'], ['b'], ['c']]⟩] (.field true [true, false, true]) .none
       = .error (.oob "only integers, slices, ... are valid indices") ∧
-    toPandas [⟨['s'], [['a'], ['b'], ['c']]⟩] (.array [true, false]) .none
+    toPandas .asFound [⟨['s'], [['a'], ['b'], ['c']]⟩] (.array [true, false]) .none
       = .error (.oob "boolean index did not match indexed array") ∧
-    toCsv renderRow [⟨['s'], [['a'], ['b'], ['c']]⟩] (.array [true, false]) .none 2 = .ok ['s', '\n', 'a', '\n'] := by decide
+    toPandas .asFound [⟨['s'], [['a'], ['b'], ['c']]⟩] (.intArray [1, 0, 1]) .none = .ok [(['s'], [['b'], ['a'], ['b']])] ∧
+    toCsv renderRow [⟨['s'], [['a'], ['b'], ['c']]⟩] (.array [true, false]) .none 2 = .ok ['s', '\n', 'a', '\n'] ∧
+    toCsv renderRow [⟨['s'], [['a'], ['b'], ['c']]⟩] (.intArray [1, 0, 1]) .none 2 = .ok ['s', '\n', 'a', '\n', 'c', '\n'] := by
+  decide
+
+/-- … on which the repaired variant returns the rows `to_csv` writes -/
+theorem nc18b_repaired_selects_csv_rows :
+    toPandas .repaired [⟨['s'], [['a'], ['b'], ['c']]⟩] (.field true [true, false, true]) .none = .ok [(['s'], [['a'], ['c']])] ∧
+    toPandas .repaired [⟨['s'], [['a'], ['b'], ['c']]⟩] (.array [true, false]) .none = .ok [(['s'], [['a']])] ∧
+    toPandas .repaired [⟨['s'], [['a'], ['b'], ['c']]⟩] (.intArray [1, 0, 1]) .none = .ok [(['s'], [['a'], ['c']])] := by decide
 
 /-- without a column left to write (the frame's only column is the filter) the loop fails at `chunk_data[0]` (IndexError) -/
 theorem no_columns_index_error :
